@@ -1622,6 +1622,7 @@ def check_C18(ctx):
     tasks += [("run_script", (f, True)) for k, f in enumerate(funcs.script_inputs()) if k % (4 if q else 1) == 0]
     tasks += [("run_squeue", x) for x in funcs.squeue_inputs(rng, 300 if q else 5000)]
     tasks += [("run_squeuecmd", x) for x in funcs.squeuecmd_inputs(rng, 200 if q else 4000)]
+    tasks += [("run_squeuemulti", x) for x in funcs.squeuemulti_inputs(rng, 150 if q else 3000)]
     tasks += [("run_submit", (c,)) for c in funcs.SUBMIT]
     obs = run_obs(tasks)
     judge_obs(ctx, "Slurm", "Slurm_obs.cfg", obs,
